@@ -36,6 +36,13 @@ func TestMain(m *testing.M) {
 		}
 		return checkInvalid(&c)
 	})
+	stats.RegisterReplay("many-wildcards", func(raw json.RawMessage) error {
+		var c ManyCase
+		if err := json.Unmarshal(raw, &c); err != nil {
+			return err
+		}
+		return checkMany(&c)
+	})
 	stats.RegisterReplay("annotation-keys", func(raw json.RawMessage) error {
 		var c KeySeqCase
 		if err := json.Unmarshal(raw, &c); err != nil {
@@ -590,6 +597,90 @@ func checkInvalid(c *InvalidCase) (err error) {
 		return err
 	}
 	return unchanged()
+}
+
+// ManyCase: a route with N wildcards (parameters, the last one optionally a catch-all, the first optionally a hostname label).
+type ManyCase struct {
+	N        int  `json:"n"`
+	CatchAll bool `json:"catch_all,omitempty"`
+	Host     bool `json:"host,omitempty"`
+}
+
+func (c *ManyCase) pattern() string {
+	var sb strings.Builder
+	n := c.N
+	if c.Host {
+		sb.WriteString("{h}.example.com")
+		n--
+	}
+	for i := 0; i < n; i++ {
+		if c.CatchAll && i == n-1 {
+			sb.WriteString("/*{c}")
+		} else {
+			sb.WriteString("/{p}")
+		}
+	}
+	if n <= 0 {
+		sb.WriteString("/")
+	}
+	return sb.String()
+}
+
+// checkMany: whenever the router accepts the pattern, the route's accessors describe it - whatever the number of wildcards.
+// (Whether a count must be refused is C10's business: a refusal is not judged here.)
+func checkMany(c *ManyCase) error {
+	f, err := fox.New()
+	if err != nil {
+		return err
+	}
+	p := c.pattern()
+	desc := fmt.Sprintf("route with %d wildcards (host label: %v, ending catch-all: %v): ", c.N, c.Host, c.CatchAll)
+	for _, how := range []string{"NewRoute", "Handle"} {
+		var rte *fox.Route
+		var err error
+		if how == "NewRoute" {
+			rte, err = f.NewRoute(p, func(fox.Context) {})
+		} else {
+			rte, err = f.Handle("GET", p, func(fox.Context) {})
+		}
+		if err != nil {
+			if !errors.Is(err, fox.ErrInvalidRoute) {
+				return fmt.Errorf("%s%s refused it with %v, which does not match ErrInvalidRoute", desc, how, err)
+			}
+			continue
+		}
+		if rte.ParamsLen() != c.N {
+			return fmt.Errorf("%s%s accepted it, ParamsLen() = %d", desc, how, rte.ParamsLen())
+		}
+		if rte.Pattern() != p || rte.Hostname()+rte.Path() != p {
+			return fmt.Errorf("%s%s accepted it, Pattern/Hostname+Path differ from the pattern (lengths %d, %d+%d, want %d)", desc, how, len(rte.Pattern()), len(rte.Hostname()), len(rte.Path()), len(p))
+		}
+	}
+	return nil
+}
+
+func TestAccessorsManyWildcards(t *testing.T) {
+	n := 0
+	for _, cnt := range []int{1, 2, 3, 254, 255, 256, 257, 4095, 4096, 32767, 32768, 65534, 65535, 65536, 65537, 70000, 131072, 131073} {
+		for _, ca := range []bool{false, true} {
+			for _, host := range []bool{false, true} {
+				if host && cnt < 2 {
+					continue
+				}
+				c := &ManyCase{N: cnt, CatchAll: ca, Host: host}
+				stats.Eval()
+				stats.NonTrivial(fmt.Sprintf("many|%+v", *c))
+				stats.Class("route-with-many-wildcards")
+				if n++; n%9 == 1 {
+					stats.Sample(c)
+				}
+				if err := checkMany(c); err != nil {
+					stats.Fail("many-wildcards", c, "%v", err)
+					t.Fatalf("%v", err)
+				}
+			}
+		}
+	}
 }
 
 func TestInvalidOptions(t *testing.T) {
